@@ -157,7 +157,518 @@ def gen_c13(tier, seed):
     return {"v3": lines, "stats": {"vardisp_ops": len(ops), "vargrid": g, "buflen_grid": b}}
 
 
+
+import panels as PN
+
+
+def alphabet(p, rnd, small=False):
+    """protocol-respecting units of the panel's API (each a list of op strings) with canonical
+    and boundary arguments; only implemented entry points"""
+    n = p.frame()
+    nb = p.n
+    A = []
+    def add(*ops):
+        A.append(list(ops))
+    add("disp")
+    add("clear")
+    add("bg,0")
+    add(f"bg,{p.colors - 1}")
+    add("wait")
+    add(f"upd,pos:{n}")
+    add(f"updisp,r:{rnd.randint(1, 999)}:{n}")
+    add("sleep", "wake")
+    add("wake")
+    if p.has("lut"):
+        add("lut,full")
+        add("lut,quick")
+        add("lut,none")
+    wins = PN.windows(p, rnd, n_random=1, small=True)
+    pick = [wins[0], wins[3 % len(wins)], wins[-1]] if not small else [wins[3 % len(wins)]]
+    if p.has("part"):
+        for (x, y, w, h) in pick:
+            add(f"part,r:{rnd.randint(1, 999)}:{w // 8 * h},{x},{y},{w},{h}")
+    if p.has("old") and p.has("newf"):
+        if p.has("dispnew"):
+            add(f"old,pos:{nb}", f"newf,r:5:{nb}", "dispnew")
+        else:
+            add(f"old,pos:{nb}", f"newf,r:5:{nb}", "disp")
+    if p.has("updispnew"):
+        add(f"old,pos:{nb}", f"updispnew,r:6:{nb}")
+    if p.has("pold") and p.has("pnew"):
+        for (x, y, w, h) in pick[:2]:
+            add(f"pold,pos:{w // 8 * h},{x},{y},{w},{h}", f"pnew,r:8:{w // 8 * h},{x},{y},{w},{h}", "disp")
+    if p.has("pclear"):
+        (x, y, w, h) = pick[0]
+        add(f"pclear,{x},{y},{w},{h}")
+    if p.has("color"):
+        add(f"color,pos:{nb},r:4:{nb}")
+        add(f"achro,r:2:{nb}", f"chro,pos:{nb}")
+    if p.has("base"):
+        add(f"base,pos:{nb}")
+    if p.has("refresh"):
+        add("refresh,quick")
+        add("refresh,full")
+    if p.has("border"):
+        add("border,0")
+        add("border,2")
+    if p.has("part2"):
+        (x, y, w, h) = pick[0]
+        add(f"part2,r:9:{2 * (w // 8 * h)},{x},{y},{w},{h}")
+    if p.has("dpart"):
+        (x, y, w, h) = pick[0]
+        add(f"dpart,{x},{y},{w},{h}")
+    if p.has("pachro") and p.has("pchro"):
+        (x, y, w, h) = pick[0]
+        add(f"pachro,r:3:{w // 8 * h},{x},{y},{w},{h}", f"pchro,pos:{w // 8 * h},{x},{y},{w},{h}")
+    if p.has("basedisp"):
+        add(f"basedisp,pos:{nb},-")
+        add(f"basedisp,pos:{nb},r:2:{nb}")
+    if p.has("disppart"):
+        add("disppart")
+    if p.has("7block"):
+        add("7block")
+    return A
+
+
+def sched_for(rnd, n=12, hi=3):
+    return ",".join(str(rnd.randint(0, hi)) for _ in range(n))
+
+
+def each_panel(feat="v3"):
+    return list(PN.table(feat).values())
+
+
+def gen_histories(tier, seed, tag, probe=True, scribble_twins=False, maxlen=None):
+    """all histories of length <= 2 (quick) / <= 3..4 sampled (thorough) over the alphabet,
+    followed by a probe full-frame update with a position-coded image and a display"""
+    rnd = random.Random(seed * 7919 + sum(map(ord, tag)))
+    lines = []
+    stats = {"histories": 0, "len": {}}
+    for p in each_panel():
+        big = p.n > 20000
+        A = alphabet(p, rnd, small=big)
+        hs = [[]] + [[u] for u in A]
+        pairs = [[u, v] for u in A for v in A]
+        if tier == "quick":
+            k = 40 if big else 120
+            hs += pairs if len(pairs) <= k else rnd.sample(pairs, k)
+        else:
+            k2 = 150 if big else len(pairs)
+            hs += pairs if len(pairs) <= k2 else rnd.sample(pairs, k2)
+            k3 = 60 if big else 300
+            for _ in range(k3):
+                hs.append([rnd.choice(A) for _ in range(rnd.choice([3, 3, 4]))])
+        if maxlen is not None:
+            hs = [h for h in hs if len(h) <= maxlen]
+        for i, h in enumerate(hs):
+            ops = ["new"] + [o for u in h for o in u]
+            if probe:
+                ops += [f"upd,pos:{p.frame()}", "disp"]
+            sid = f"{tag}-{p.name}-{i}"
+            if scribble_twins:
+                lines.append(PN.line(sid + "@0", p, ops, sched=sched_for(rnd), scribble=0))
+                lines.append(PN.line(sid + "@1", p, ops, sched=lines[-1].split("sched=")[1].split()[0], scribble=1))
+            else:
+                lines.append(PN.line(sid, p, ops, sched=sched_for(rnd)))
+            stats["histories"] += 1
+            stats["len"][len(h)] = stats["len"].get(len(h), 0) + 1
+    return {"v3": lines, "stats": stats}
+
+
+def gen_c02(tier, seed):
+    return gen_histories(tier, seed, "c02")
+
+
+def gen_c09(tier, seed):
+    return gen_histories(tier, seed, "c09")
+
+
+def gen_c12(tier, seed):
+    return gen_histories(tier, seed, "c12", scribble_twins=True, maxlen=2 if tier == "quick" else 3)
+
+
+def gen_c01(tier, seed):
+    rnd = random.Random(seed * 7919 + 1)
+    out = {"v3": [], "v2": [], "stats": {"entry_points": 0}}
+    for feat in ("v3", "v2"):
+        for p in each_panel(feat):
+            if feat == "v2" and p.name != "epd2in13_v2":
+                continue
+            n, nb = p.frame(), p.n
+            bufs = lambda m: [f"z:{m}", f"pos:{m}", f"r:{rnd.randint(1, 9999)}:{m}", f"c:ff:{m}"]
+            extra = [] if tier == "quick" else [f"bit:0:{n}", f"bit:{8 * n - 1}:{n}", f"bit:{8 * (n // 2) - 1}:{n}", f"bit:{8 * (n // 2)}:{n}", f"r:{rnd.randint(1, 9999)}:{n}"]
+            k = 0
+            def emit(ops):
+                nonlocal k
+                out[feat].append(PN.line(f"c01-{feat}-{p.name}-{k}", p, ["new"] + ops, sched=sched_for(rnd)))
+                k += 1
+                out["stats"]["entry_points"] += 1
+            for b in bufs(n) + extra:
+                emit([f"upd,{b}", "disp"])
+                emit([f"updisp,{b}"])
+            if p.has("color"):
+                for b in bufs(nb):
+                    emit([f"color,{b},r:{rnd.randint(1, 999)}:{nb}", "disp"])
+                    emit([f"achro,{b}", f"chro,pos:{nb}", "disp"])
+                    emit([f"chro,{b}", "disp"])
+            if p.has("old") and p.has("newf"):
+                for b in bufs(nb):
+                    emit([f"old,{b}", f"newf,r:3:{nb}", "dispnew" if p.has("dispnew") else "disp"])
+                    emit([f"old,r:3:{nb}", f"newf,{b}", "dispnew" if p.has("dispnew") else "disp"])
+            if p.has("updispnew"):
+                emit([f"old,pos:{nb}", f"updispnew,r:4:{nb}"])
+            if p.has("base"):
+                for b in bufs(nb):
+                    emit([f"base,{b}", "disp"])
+                emit(["refresh,quick", f"updisp,pos:{nb}"])
+                emit(["refresh,quick", f"upd,r:2:{nb}", "disp"])
+    return out
+
+
+def gen_c06(tier, seed):
+    rnd = random.Random(seed * 7919 + 6)
+    lines = []
+    stats = {"windows": 0}
+    part_ops = ["part", "pold", "pnew", "pclear", "part2", "pachro", "pchro"]
+    for p in each_panel():
+        ents = [o for o in part_ops if p.has(o)]
+        if not ents:
+            continue
+        big = p.n > 20000
+        nrand = (4 if big else 20) if tier == "quick" else (40 if big else 300)
+        wins = PN.windows(p, rnd, n_random=nrand, small=big and tier == "quick")
+        if not big and tier != "quick" and p.w <= 152:
+            # all aligned x,w and boundary y,h
+            for w in range(8, p.w8 + 1, 8):
+                for x in range(0, p.w8 - w + 1, 8):
+                    for (y, h) in [(0, 1), (0, p.h), (p.h - 1, 1), (3, 5)]:
+                        if (x, y, w, h) not in wins:
+                            wins.append((x, y, w, h))
+        pre = [f"upd,r:77:{p.frame()}"]
+        if p.has("chro"):
+            pre.append(f"chro,r:78:{p.n}")
+        if p.has("old"):
+            pre.append(f"old,r:79:{p.n}")
+        for i, (x, y, w, h) in enumerate(wins):
+            m = w // 8 * h
+            for e in ents:
+                sid = f"c06-{p.name}-{e}-{i}"
+                if e == "part":
+                    ops = [f"part,pos:{m},{x},{y},{w},{h}"]
+                elif e == "pold":
+                    ops = [f"pold,pos:{m},{x},{y},{w},{h}"]
+                elif e == "pnew":
+                    # documented pair: old data first, then the new data of the same window
+                    ops = [f"pold,r:5:{m},{x},{y},{w},{h}", f"pnew,pos:{m},{x},{y},{w},{h}"]
+                elif e == "pclear":
+                    ops = [f"pclear,{x},{y},{w},{h}"]
+                elif e == "part2":
+                    ops = [f"part2,pos:{2 * m},{x},{y},{w},{h}"]
+                elif e == "pachro":
+                    ops = [f"pachro,pos:{m},{x},{y},{w},{h}"]
+                else:
+                    ops = [f"pchro,pos:{m},{x},{y},{w},{h}"]
+                lines.append(PN.line(sid, p, ["new"] + pre + ops, sched=sched_for(rnd)))
+                stats["windows"] += 1
+    return {"v3": lines, "stats": stats}
+
+
+def gen_c07(tier, seed):
+    rnd = random.Random(seed * 7919 + 7)
+    lines = []
+    for p in each_panel():
+        A = alphabet(p, rnd, small=True)
+        parts = [u for u in A if u[0].split(",")[0] in ("part", "pold", "part2", "pachro")]
+        for c in range(p.colors):
+            hist = [[], ["clear"], ["sleep", "wake"]] + parts[:1]
+            if tier != "quick":
+                hist += [rnd.choice(A) for _ in range(6)]
+            for i, h in enumerate(hist):
+                lines.append(PN.line(f"c07-{p.name}-{c}-{i}", p, ["new"] + h + [f"bg,{c}", "clear"], sched=sched_for(rnd)))
+    return {"v3": lines, "stats": {"lines": len(lines)}}
+
+
+def gen_c08(tier, seed):
+    rnd = random.Random(seed * 7919 + 8)
+    lines = []
+    for p in each_panel():
+        big = p.n > 20000
+        A = alphabet(p, rnd, small=True)
+        A1 = [[]] + A
+        k = 0
+        combos = [(a, b) for a in A1 for b in A1]
+        lim = (25 if big else 60) if tier == "quick" else (80 if big else 400)
+        if len(combos) > lim:
+            combos = rnd.sample(combos, lim)
+        for (pre, suf) in combos:
+            ops = ["new"] + pre + ["sleep", "wake"] + suf
+            lines.append(PN.line(f"c08-{p.name}-{k}", p, ops, sched=sched_for(rnd)))
+            k += 1
+        lines.append(PN.line(f"c08-{p.name}-ww", p, ["new", "wake", "wake", f"upd,pos:{p.frame()}", "disp"], sched=sched_for(rnd)))
+        lines.append(PN.line(f"c08-{p.name}-cyc", p, ["new"] + ["sleep", "wake"] * 3 + [f"upd,pos:{p.frame()}", "disp"], sched=sched_for(rnd)))
+    return {"v3": lines, "stats": {"lines": len(lines)}}
+
+
+def gen_c17(tier, seed):
+    rnd = random.Random(seed * 7919 + 17)
+    out = {"v3": [], "v2": [], "alt": [], "stats": {}}
+    alpha = [["lut,full"], ["lut,quick"], ["lut,none"], ["sleep", "wake"], ["disp"]]
+    import itertools
+    for feat in ("v3", "v2", "alt"):
+        for p in each_panel(feat):
+            if p.name not in PN.LUT_PANELS:
+                continue
+            if feat == "v2" and p.name != "epd2in13_v2":
+                continue
+            if feat == "alt" and p.name not in ("epd1in54", "epd2in9"):
+                continue
+            L = 3 if tier == "quick" else 4
+            k = 0
+            for n in range(1, L + 1):
+                seqs = list(itertools.product(alpha, repeat=n))
+                if n >= 3 and tier == "quick":
+                    seqs = rnd.sample(seqs, 40)
+                if n == 4:
+                    seqs = rnd.sample(seqs, 200)
+                for sq in seqs:
+                    ops = ["new"] + [o for u in sq for o in u]
+                    out[feat].append(PN.line(f"c17-{feat}-{p.name}-{k}", p, ops, sched=sched_for(rnd)))
+                    k += 1
+            if p.name == "epd2in13_v2":
+                for sq in (["refresh,quick"], ["refresh,quick", "lut,none"], ["refresh,quick", "sleep", "wake"], ["refresh,quick", "refresh,full", "lut,none"]):
+                    out[feat].append(PN.line(f"c17-{feat}-{p.name}-r{k}", p, ["new"] + sq, sched=sched_for(rnd)))
+                    k += 1
+    return out
+
+
+def all_ops_lines(tag, tier, seed, feats=("v3",), lengths=False):
+    rnd = random.Random(seed * 7919 + sum(map(ord, tag)))
+    out = {f: [] for f in feats}
+    for feat in feats:
+        for p in each_panel(feat):
+            if feat == "v2" and p.name != "epd2in13_v2":
+                continue
+            if feat == "alt" and p.name not in ("epd1in54", "epd2in9"):
+                continue
+            A = alphabet(p, rnd, small=p.n > 20000)
+            k = 0
+            for u in A:
+                out[feat].append(PN.line(f"{tag}-{feat}-{p.name}-{k}", p, ["new"] + u, sched=sched_for(rnd), delay=rnd.choice(["none", "0", "1", "250"])))
+                k += 1
+            # a longer mixed sequence
+            for _ in range(2 if tier == "quick" else 8):
+                seq = [o for u in rnd.sample(A, min(4, len(A))) for o in u]
+                out[feat].append(PN.line(f"{tag}-{feat}-{p.name}-{k}", p, ["new"] + seq, sched=sched_for(rnd)))
+                k += 1
+            if lengths and feat == "v3":
+                Ls = [0, 1, 4095, 4096, 4097, 8192, 8193] + ([] if tier == "quick" else [12288, 12289, 65536])
+                for L in Ls:
+                    for op in ("upd", "chro", "newf", "achro"):
+                        if p.has(op):
+                            out[feat].append(PN.line(f"{tag}-{feat}-{p.name}-{k}", p, ["new", f"{op},r:{rnd.randint(1,999)}:{L}"], sched=sched_for(rnd)))
+                            k += 1
+    out["stats"] = {"lines": sum(len(out[f]) for f in feats)}
+    return out
+
+
+def gen_c10(tier, seed):
+    return all_ops_lines("c10", tier, seed, lengths=True)
+
+
+def gen_c18(tier, seed):
+    return all_ops_lines("c18", tier, seed, feats=("v3", "v2", "alt"))
+
+
+def gen_c11(tier, seed):
+    rnd = random.Random(seed * 7919 + 11)
+    out = {"v3": [], "v2": [], "stats": {}}
+    for feat in ("v3", "v2"):
+        for p in each_panel(feat):
+            if feat == "v2" and p.name != "epd2in13_v2":
+                continue
+            k = 0
+            for delay in ("none", "0", "1", "250"):
+                for ops in (["new"], ["new", "wake"], ["new", "sleep", "wake"], ["new", "wake", "wake"], ["new", "clear", "wake"]):
+                    out[feat].append(PN.line(f"c11-{feat}-{p.name}-{k}", p, ops, sched=sched_for(rnd), delay=delay))
+                    k += 1
+                nb = p.n
+                if p.name == "epd2in9_v2":
+                    out[feat].append(PN.line(f"c11-{feat}-{p.name}-{k}", p, ["new", f"old,pos:{nb}", f"newf,r:1:{nb}", "dispnew"], sched=sched_for(rnd), delay=delay)); k += 1
+                    out[feat].append(PN.line(f"c11-{feat}-{p.name}-{k}", p, ["new", f"old,pos:{nb}", f"updispnew,r:1:{nb}"], sched=sched_for(rnd), delay=delay)); k += 1
+                if p.name == "epd2in9d":
+                    out[feat].append(PN.line(f"c11-{feat}-{p.name}-{k}", p, ["new", f"upd,pos:{nb}", "part,r:1:16,8,16,16,8", "part,r:2:16,8,16,16,8"], sched=sched_for(rnd), delay=delay, busylvl=1)); k += 1
+                if p.name == "epd2in13_v2":
+                    out[feat].append(PN.line(f"c11-{feat}-{p.name}-{k}", p, ["new", "refresh,quick", "refresh,full", "refresh,full"], sched=sched_for(rnd), delay=delay)); k += 1
+    return out
+
+
+def gen_c05(tier, seed):
+    rnd = random.Random(seed * 7919 + 5)
+    lines = []
+    stats = {"pairs": 0}
+    import itertools
+    for p in each_panel():
+        big = p.n > 20000
+        A = alphabet(p, rnd, small=True)
+        pairs = [(a, b) for a in A for b in A]
+        lim = (30 if big else 80) if tier == "quick" else (120 if big else len(pairs))
+        if len(pairs) > lim:
+            pairs = rnd.sample(pairs, lim)
+        durs = [0, 1, 3] if tier == "quick" else list(range(8))
+        k = 0
+        for (a, b) in pairs:
+            reps = 2 if tier == "quick" else 4
+            for _ in range(reps):
+                sched = ",".join(str(rnd.choice(durs)) for _ in range(14))
+                delay = rnd.choice(["none", "0", "1", "250"])
+                lines.append(PN.line(f"c05-{p.name}-{k}", p, ["new"] + a + b, sched=sched, delay=delay))
+                k += 1
+            stats["pairs"] += 1
+        # explicit wait after each busy-raising op
+        for u in A:
+            lines.append(PN.line(f"c05-{p.name}-w{k}", p, ["new"] + u + ["wait"], sched=",".join(str(rnd.choice(durs)) for _ in range(14)), delay=rnd.choice(["none", "0", "7"])))
+            k += 1
+    return {"v3": lines, "stats": stats}
+
+
+def transfer_ranges(trace_text):
+    """per scenario id: list per op of [(dc, nbytes_per_transfer, count), ...] from a harness trace"""
+    res = {}
+    cur = None
+    ops = []
+    groups = []
+    for l in trace_text.splitlines():
+        if l.startswith("S "):
+            cur = l[2:]
+            ops = []
+            groups = []
+        elif l.startswith("W "):
+            f = l.split(" ")
+            for part in f[2].split(","):
+                ln, cnt = part.split("*")
+                groups.append((f[1], int(ln), int(cnt)))
+        elif l.startswith("E "):
+            ops.append(groups)
+            groups = []
+        elif l == "T":
+            res[cur] = ops
+    return res
+
+
+def gen_c04(tier, seed, ctx=None):
+    """fault at transfer index k of an operation, then the recovery suffix (wake_up, full-frame
+    update, display); each with a fault-free twin.  The transfer counts come from a fault-free
+    pre-pass through the real harness."""
+    rnd = random.Random(seed * 7919 + 4)
+    base = []
+    for p in each_panel():
+        A = alphabet(p, rnd, small=True)
+        k = 0
+        for u in [[]] + A:
+            base.append((f"c04-{p.name}-{k}", p, ["new"] + u))
+            k += 1
+    if ctx is None:
+        return {"v3": [], "stats": {}}
+    pre = ctx.harness([PN.line(sid, p, ops) for (sid, p, ops) in base], "v3")
+    ranges = transfer_ranges(pre)
+    lines = []
+    stats = {"faults": 0, "ops": 0, "exhaustive_panels": []}
+    exhaustive = ("epd1in02", "epd1in54c", "epd2in13bc") if tier != "quick" else ()
+    for (sid, p, ops) in base:
+        per_op = ranges.get(sid, [])
+        start = 0
+        rec = ["wake", f"upd,pos:{p.frame()}", "disp"]
+        twin_done = False
+        for oi, groups in enumerate(per_op):
+            # fault positions inside this op
+            idxs = []
+            pos = start
+            for (dc, ln, cnt) in groups:
+                if cnt <= 24 or p.name in exhaustive:
+                    cand = list(range(pos, pos + cnt))
+                else:
+                    cand = sorted({pos, pos + 1, pos + cnt - 1, pos + cnt - 2} | {pos + rnd.randrange(cnt) for _ in range(5)})
+                idxs += cand
+                pos += cnt
+            total = pos - start
+            # the op under test is the LAST unit (ops after `new`), and `new` itself for the bare scenario
+            is_target = (len(ops) == 1 and oi == 0) or (len(ops) > 1 and oi >= 1)
+            if is_target and idxs:
+                lim = 10 if tier == "quick" else 60
+                if p.name in exhaustive:
+                    lim = 10 ** 9
+                if len(idxs) > lim:
+                    keep = {idxs[0], idxs[-1]}
+                    keep |= set(rnd.sample(idxs, lim - 2))
+                    idxs = sorted(keep)
+                opname = ops[oi].split(",")[0]
+                for kf in idxs:
+                    # a failed constructor returns no driver: nothing to recover
+                    lines.append(PN.line(f"{sid}-{opname}@{kf}", p, ops + (rec if opname != "new" else []), fault=kf))
+                    stats["faults"] += 1
+                if not twin_done:
+                    lines.append(PN.line(f"{sid}-twin@-", p, ops + rec))
+                    twin_done = True
+                stats["ops"] += 1
+            start += total
+    stats["exhaustive_panels"] = list(exhaustive)
+    return {"v3": lines, "stats": stats}
+
+
+def post_c04(outputs, all_lines):
+    """recovery: the controller state after [failed op; wake_up; update; display] equals that of the twin"""
+    dig = {}
+    for feat, o in outputs:
+        if o.startswith("O ") and " C04 " in o:
+            f = o.split(" ", 3)
+            dig[f[1]] = f[3]
+    fails = []
+    for sid, d in dig.items():
+        if sid.endswith("@-") or "-new@" in sid:
+            continue
+        base = sid.rsplit("-", 1)[0]
+        twin = dig.get(base + "-twin@-")
+        if twin is not None and twin != d:
+            panel = sid.split("-")[1]
+            opname = sid.rsplit("-", 1)[1].split("@")[0]
+            fails.append(("v3", sid, f"site={panel}/{opname} reason=state-after-recovery-differs got={d.replace(' ', ';')} want={twin.replace(' ', ';')}"))
+    return fails, len(dig)
+
+
+def post_c12(outputs, all_lines):
+    dig = {}
+    for feat, o in outputs:
+        if o.startswith("O ") and " C12 " in o:
+            f = o.split(" ", 3)
+            dig[f[1]] = f[3]
+    fails = []
+    for sid, d in dig.items():
+        if sid.endswith("@1"):
+            twin = dig.get(sid[:-2] + "@0")
+            if twin is not None and twin != d:
+                panel = sid.split("-")[1]
+                fails.append(("v3", sid, f"site={panel}/history reason=wire-depends-on-buffer-after-return got={d} want={twin}"))
+    return fails, len(dig) // 2
+
+
+def _mk(gen, props, view, rule, feats=("v3",), assumptions=()):
+    return {"props": props, "view": view, "gen": gen, "rule": rule, "feats": list(feats), "assumptions": list(assumptions)}
+
+
 PROPS = {
+    "C01": _mk(gen_c01, ["C01"], "logical", "every full-frame entry point of every panel (both 2.13in features) from a fresh driver with zero / position-coded / PRNG / all-ones buffers (thorough: + one-bit buffers at first, last and seam positions), followed by display; oracle: controller-model planes vs the panel's documented plane and encoding; non-trivial = scenarios whose buffer is not constant", feats=("v3", "v2")),
+    "C02": _mk(gen_c02, ["C02"], "logical", "all histories of length <= 2 (quick; sampled to 120 / 40 pairs per small / large panel) or <= 4 (thorough, sampled) over the per-panel alphabet of protocol-respecting units, then a probe update_frame with a position-coded image; oracle: planes after the probe = the documented image at the panel origin"),
+    "C04": dict(_mk(gen_c04, ["C04"], "raw", "every unit of every panel's alphabet (and construction itself): a fault injected at every command/parameter transfer and at both ends + 5 interior points of every bulk burst (sampled to 10 per op quick / 60 thorough; fully exhaustive on 1in02, 1in54c, 2in13bc in thorough), followed by wake_up, a full-frame update and display; a fault-free twin per history; oracle: error reported, no transfer after the failed one, no panic, controller state after recovery = twin's"), post="post_c04", ctx=True),
+    "C05": _mk(gen_c05, ["C05"], "raw", "ordered pairs of protocol units per panel x busy durations {0,1,3} (quick) / 0..7 (thorough) for every episode x idle-delay {None,0,1,250}; plus explicit wait after every unit; oracle: monitor over polls/delays/commands"),
+    "C06": _mk(gen_c06, ["C06"], "logical", "every partial entry point x boundary windows (single byte, single row, each edge, full panel, x>=256, y around 256) + random aligned windows (quick 4-20, thorough 40-300 per panel; all aligned x,w on panels <= 152 px wide), planes pre-filled with PRNG data so that any byte outside the window that changes is seen"),
+    "C07": _mk(gen_c07, ["C07"], "logical", "every panel x every background colour x {fresh, after clear, after sleep/wake, after a partial update} (thorough: + 6 random units); oracle: planes after clear_frame"),
+    "C08": _mk(gen_c08, ["C08"], "logical", "[prefix; sleep; wake_up; suffix] with prefix/suffix from the alphabet (sampled), wake_up twice without sleep, three sleep/wake cycles; oracle: last transfer of sleep, reset pulse at wake_up, register writes of wake_up vs construction for the current settings"),
+    "C09": _mk(gen_c09, ["C09"], "logical", "the C02 histories; oracle: controller-model snapshot (asleep / initialised / powered) at every refresh trigger"),
+    "C10": _mk(gen_c10, ["C10"], "raw", "every unit of every panel's alphabet + mixed sequences with all idle-delay settings + user buffers of 0,1,4095,4096,4097,8192,8193 bytes through every full-frame entry point; oracle: D/C discipline, transfer sizes, logical stream = the program's"),
+    "C11": _mk(gen_c11, ["C11"], "raw", "every panel x {new, new+wake, sleep+wake, wake twice, clear+wake} x idle-delay {None,0,1,250} + the operations that re-initialise internally (2in9_v2 update_new_frame, 2in9d first partial update, 2in13_v2 set_refresh), both 2.13in features", feats=("v3", "v2")),
+    "C12": dict(_mk(gen_c12, ["C12"], "raw", "histories up to length 2 (quick) / 3 (thorough) each run twice: buffers left intact vs every buffer complemented as soon as the borrowing call returns; oracle: the two wire traces are equal"), post="post_c12"),
+    "C17": _mk(gen_c17, ["C17"], "logical", "panels with host-loaded tables x all sequences up to length 2 + sampled length 3 (quick) / 4 (thorough) over {select full, select quick, reload, sleep+wake, display}; features v3, v2 (2in13_v2) and alt (type-A LUT)", feats=("v3", "v2", "alt")),
+    "C18": _mk(gen_c18, ["C18"], "logical", "every unit of every panel's alphabet + mixed sequences, features v3 / v2 / alt; oracle: decoded (command, #params) stream against the family tables, geometry registers", feats=("v3", "v2", "alt")),
     "C03": {
         "props": ["C03"], "view": "raw", "gen": gen_c03,
         "rule": "setpx batches: the real set_pixel / draw_iter is called for every point of [-3,W+3]x[-3,H+3] (mode grid) or the i32 extremes (mode ext) on a PRNG-filled buffer; after every call the whole exposed buffer is compared with its previous state and (index, new byte) of every changed byte is hashed; the model predicts the same hash. quick: 3 aliases (bw / tri with width 122 / oct) x 4 rotations x colours, all VarDisplay geometries 1..16^2 x 3 colour types x 4 rotations; thorough: all 27 aliases x all colours, geometries to 40^2. non-trivial = batches that changed at least one byte",
